@@ -1,10 +1,16 @@
 use crate::report::{Cfg, Outcome};
 
 pub mod c01;
+pub mod c02;
+pub mod c03;
+pub mod c04;
 
 pub fn dispatch(cfg: &Cfg) -> Option<Outcome> {
     Some(match cfg.prop.as_str() {
         "C01" => c01::run(cfg),
+        "C02" => c02::run(cfg),
+        "C03" => c03::run(cfg),
+        "C04" => c04::run(cfg),
         _ => return None,
     })
 }
